@@ -4,6 +4,8 @@ from .. import unigen
 F1 = "uni chan=move_atomic N=8 M=1 k=1 origin=0 ; drive:0 ; send:100 ; send:101 ; send:102 ; S 0 0 0 0 0 0 0 0 0 1 1 2 2 3 3 1 1 1 1 0 0 0 0 0 0 0 0 0 0 0 0 2 2 2 2 0 0 0 0 0 0 0 0 0 0 0 0 3 3 3 3 3 3 0 0 0 1 2 3 0 1 2 3 0 1 2 3 0"
 F13 = "uni chan=move_atomic N=8 M=2 k=2 origin=0 ; drive:0 ; drive:1 ; send:7 ; S 1 1 1 1 1 1 1 1 1 1 1 1 0 0 0 0 0 0 0 0 0 0 0 0 0 0 0 2 2 2 2 2 2 0 0 0 0 0 0 1 1 1 0 1 2 0 1 2 0 1 2"
 
+F15 = "uni chan=move_atomic N=8 M=1 k=1 origin=0 ; drive:0 ; send:1 send:2 send:3 ; S 1 1 1 1 1 1 1 1 1 1 1 1 1 1 1 1 1 1 0 0 0 0 0 0 0 0 0 0 0 0 0 0 0 0 0 0 0 0 0 0 0 0 0 0 0 0 0 0 0 0 0 0 0 0 0 0 0 0 1 1 1 1 0 0 0 0 0 0 0 1 0 1 0 1"
+
 class C04(Prop):
     pid = "C04"; prop_file = "C04.v"
     rule = ("cases: 1-3 producers (send / send_with, 1-4 events each) against 1..MAX_STREAMS executor-driven streams (MAX_STREAMS in {1,2}) on the movable atomic and movable "
@@ -14,7 +16,7 @@ class C04(Prop):
     assumptions = ["each stream is driven by exactly one task", "no stream is dropped during the run"]
     def suites(self, tier, rng):
         n = 150 if tier == "quick" else 3000
-        at = [unigen.parse_case_line(F1), unigen.parse_case_line(F13)] + [unigen.gen_case(rng, "move_atomic", profile="drive", tail_rounds=60) for _ in range(n)]
+        at = [unigen.parse_case_line(F1), unigen.parse_case_line(F13), unigen.parse_case_line(F15)] + [unigen.gen_case(rng, "move_atomic", profile="drive", tail_rounds=60) for _ in range(n)]
         fs = [unigen.gen_case(rng, "move_full_sync", profile="drive", tail_rounds=60) for _ in range(n)]
         return [Suite("uni_move_full_sync", unigen.HEADER, fs), Suite("uni_move_atomic", unigen.HEADER, at)]
     def oracle(self, case, recs):
